@@ -284,8 +284,8 @@ def _pytree_rollout(it, rollout, ns, takes_aux, constant_aux, include_init):
             ta.append(u[0])
             tb.append(u[1])
         want = (Stack(ta), Stack(tb))
-        if tuple(got) != want:
-            return False, f"pytree state n={n}: got {got} expected {want}"
+        if not isinstance(got, (tuple, list)) or tuple(got) != want:
+            return False, f"pytree state n={n}: got {str(got)[:300]} expected the per-leaf trajectories {str(want)[:300]}"
     return True, ""
 
 
